@@ -159,7 +159,7 @@ def run (line : String) : String :=
         | .idle => "idle" ++ q ()
         | .stalled => "STALLED" ++ q ()
         | .spin => "SPIN"
-      os ++ " acc=" ++ toString s.w.accepted ++ " calls=" ++ toString s.w.calls ++
+      os ++ " lw=" ++ (match s.lw with | some k => toString k | none => "-") ++ " acc=" ++ toString s.w.accepted ++ " calls=" ++ toString s.w.calls ++
         " sd=" ++ (if s.w.shutdownDone then "1" else "0") ++ " tr=" ++ traceStr s.trace.reverse
 
 end ActixModel.Drv.C04
